@@ -74,7 +74,7 @@ def step (st : Unit) (j : Json) : Unit × List String :=
       let kf := jBool v "keyfound"
       let E : Env := { resolve := fun _ => if kf then some "K" else none, embeddedKey := fun _ => if kf then some "E" else none,
                        verifies := fun _ _ _ => jBool v "verified", verifiesSplit := fun _ _ _ => false }
-      dagTx Facts.C17.dagAllowedAlgs Facts.C17.dagRejectsPrivateJwk E (jBool v "otherok") info
+      dagTx Facts.C17.dagAllowedAlgs Facts.C17.dagRejectsPrivateJwk Facts.C17.dagStrictFraming E (jBool v "otherok") (jBool v "framing") info
     | "apitoken" =>
       let nf := jNat v "nfields"
       let hdr : C04.Str :=
